@@ -125,6 +125,7 @@ def check(res):
             elif k == "try": s = "(try (%s) (catch e%d int (break)))" % (s, d)
             else: s = "(block (forin (var v%d int) true %s))" % (d, s)
         progs.append("(program (fun f%d void () (block %s)) (var after int))" % (i, s))
+    progs += progen.deep_programs()          # 26..120 nested blocks, classes, namespaces: margins beyond 80 columns
     p3 = run([exe, "prog"], input="\n".join(progs) + "\n", timeout=7200)
     nest_ok = 0
     for l in p3.stdout.splitlines():
@@ -135,6 +136,14 @@ def check(res):
                 viol("harness", "program builder: " + mm.group(2), {"program": progs[int(mm.group(1)) - 1][:2000]}, no_input=True)
             continue
         i = int(m.group(1))
+        txt = b"" if m.group(3) == "-" else bytes.fromhex(m.group(3).replace("...", ""))
+        ctl = sorted(set(x for x in txt if (x < 32 and x != 10) or x == 127))
+        if ctl:
+            at = next(j for j, x in enumerate(txt) if x in ctl)
+            line_start = txt.rfind(b"\n", 0, at) + 1
+            viol("control:nesting", "printing a unit with nested statements writes control byte(s) %s although no spelling contains one (offset %d, column %d of its line)" %
+                 (["0x%02x" % x for x in ctl[:4]], at, at - line_start),
+                 {"program": progs[i - 1][:5000], "output_hex_around": txt[max(0, at - 90):at + 20].hex(), "rerun": "echo '<program>' | build/<hash>/plain/print_driver prog"})
         if m.group(4) != "ok":
             viol("nesting:" + m.group(4).split("|")[1].split(":")[0], "printing a unit with nested statements: %s" % m.group(4), {"program": progs[i - 1][:5000], "rerun": "echo '<program>' | build/<hash>/plain/print_driver prog"})
         else:
